@@ -15,7 +15,7 @@ def main():
     tmp = tempfile.mkdtemp(prefix="gcmverif_onpatch_")
     try:
         shutil.copytree("/repo/gcmpy", os.path.join(tmp, "gcmpy"), ignore=shutil.ignore_patterns("__pycache__"))
-        subprocess.run(["git", "apply", "--unsafe-paths", "--directory", tmp, os.path.join(d, "patch.diff")], check=True, cwd=tmp)
+        subprocess.run(["git", "apply", "--include=*/gcmpy/*", "--unsafe-paths", "--directory", tmp, os.path.join(d, "patch.diff")], check=True, cwd=tmp)
         code, results = check_mod.run_property(prop, tmp, "quick", write=False, quiet=True, only=only)
         for r in results:
             if only and not r.obligation.startswith(only):
